@@ -307,7 +307,61 @@ func (c *Ctx) registerStd(tab map[string]intrinsicFn) {
 		c.E.Stubs["fmt.Sprint*"]++
 		return "<fmt>"
 	}
-	tab["fmt.Sprint"] = sprint
+	// Sprint of concrete integers, strings, booleans and slices of them is done for real (memo keys are
+	// built this way); anything else stays an opaque text
+	concreteArg := func(c *Ctx, x Value) (interface{}, bool) {
+		iv, isI := x.(IfaceV)
+		if !isI || iv.T == nil {
+			return nil, false
+		}
+		one := func(y Value, T types.Type) (interface{}, bool) {
+			switch z := y.(type) {
+			case string:
+				return z, true
+			case *smt.Term:
+				if !z.IsConst() {
+					return nil, false
+				}
+				if z.Sort.K == smt.KBV {
+					if isSigned(T) {
+						return z.SVal(), true
+					}
+					return z.U, true
+				}
+				if z.Sort.K == smt.KBool {
+					return z.BoolVal(), true
+				}
+			}
+			return nil, false
+		}
+		if sv, ok := iv.V.(SliceV); ok {
+			st, ok := iv.T.Underlying().(*types.Slice)
+			if !ok {
+				return nil, false
+			}
+			out := make([]interface{}, 0, sv.Len)
+			for i := 0; i < sv.Len; i++ {
+				e, ok := one(sv.B.Load(c, sv.Off+i), st.Elem())
+				if !ok {
+					return nil, false
+				}
+				out = append(out, e)
+			}
+			return out, true
+		}
+		return one(iv.V, iv.T)
+	}
+	tab["fmt.Sprint"] = func(c *Ctx, fn *ssa.Function, a []Value) Value {
+		var args []interface{}
+		for _, x := range c.valuesOf(a[0]) {
+			v, ok := concreteArg(c, x)
+			if !ok {
+				return sprint(c, fn, a)
+			}
+			args = append(args, v)
+		}
+		return fmt.Sprint(args...)
+	}
 	tab["fmt.Sprintln"] = sprint
 	tab["fmt.Println"] = func(c *Ctx, fn *ssa.Function, a []Value) Value {
 		return TupleV{c.St.BVC(64, 0), IfaceV{}}
@@ -467,6 +521,95 @@ func (c *Ctx) registerStd(tab map[string]intrinsicFn) {
 				return n
 			}
 		}
+	}
+	// sync.Map: a keyed side table per map address (one goroutine); stores reach the frame monitor
+	type smEntry struct{ k, v Value }
+	smap := func(c *Ctx, p Value, create bool) (*Value, map[string]*smEntry, *[]string) {
+		sp := cell(c, p)
+		if c.syncMaps == nil {
+			c.syncMaps = map[*Value]interface{}{}
+			c.syncOrder = map[*Value]*[]string{}
+		}
+		m, ok := c.syncMaps[sp].(map[string]*smEntry)
+		if !ok {
+			m = map[string]*smEntry{}
+			c.syncMaps[sp] = m
+			c.syncOrder[sp] = &[]string{}
+		}
+		return sp, m, c.syncOrder[sp]
+	}
+	tab["(*sync.Map).Load"] = func(c *Ctx, fn *ssa.Function, a []Value) Value {
+		_, m, _ := smap(c, a[0], false)
+		if e, ok := m[c.keyOf(a[1])]; ok {
+			return TupleV{e.v, c.St.True()}
+		}
+		return TupleV{IfaceV{}, c.St.False()}
+	}
+	smStore := func(c *Ctx, a []Value) {
+		sp, m, order := smap(c, a[0], true)
+		c.noteSlotWrite(sp)
+		k := c.keyOf(a[1])
+		if _, ok := m[k]; !ok {
+			*order = append(*order, k)
+		}
+		m[k] = &smEntry{a[1], a[2]}
+	}
+	tab["(*sync.Map).Store"] = func(c *Ctx, fn *ssa.Function, a []Value) Value { smStore(c, a); return nil }
+	tab["(*sync.Map).LoadOrStore"] = func(c *Ctx, fn *ssa.Function, a []Value) Value {
+		_, m, _ := smap(c, a[0], false)
+		if e, ok := m[c.keyOf(a[1])]; ok {
+			return TupleV{e.v, c.St.True()}
+		}
+		smStore(c, a)
+		return TupleV{a[2], c.St.False()}
+	}
+	tab["(*sync.Map).Delete"] = func(c *Ctx, fn *ssa.Function, a []Value) Value {
+		sp, m, order := smap(c, a[0], false)
+		k := c.keyOf(a[1])
+		if _, ok := m[k]; ok {
+			c.noteSlotWrite(sp)
+			delete(m, k)
+			for i, o := range *order {
+				if o == k {
+					*order = append((*order)[:i:i], (*order)[i+1:]...)
+					break
+				}
+			}
+		}
+		return nil
+	}
+	tab["(*sync.Map).Range"] = func(c *Ctx, fn *ssa.Function, a []Value) Value {
+		_, m, order := smap(c, a[0], false)
+		cl, ok := a[1].(*Closure)
+		if !ok || cl == nil {
+			panic(c.goPanic("sync.Map.Range(nil)"))
+		}
+		for _, k := range append([]string(nil), *order...) {
+			e, ok := m[k]
+			if !ok {
+				continue
+			}
+			r := c.callClosure(cl, []Value{e.k, e.v}, nil)
+			if t, ok := r.(*smt.Term); ok && t.IsConst() && !t.BoolVal() {
+				break
+			}
+		}
+		return nil
+	}
+	tab["(*sync.Once).Do"] = func(c *Ctx, fn *ssa.Function, a []Value) Value {
+		sp := cell(c, a[0])
+		if c.atomics == nil {
+			c.atomics = map[*Value]Value{}
+		}
+		if _, done := c.atomics[sp]; done {
+			return nil
+		}
+		c.noteSlotWrite(sp)
+		c.atomics[sp] = c.St.True()
+		if cl, ok := a[1].(*Closure); ok && cl != nil {
+			c.callClosure(cl, nil, nil)
+		}
+		return nil
 	}
 	// reflect.Value of an interpreter value: only what length queries need
 	tab["reflect.ValueOf"] = func(c *Ctx, fn *ssa.Function, a []Value) Value {
